@@ -413,3 +413,79 @@ def check_structural(res, ctx, rng):
                     break
             else:
                 res.count("model_agreed_structural")
+
+
+def check_truncate_then_write(res, ctx, rng):
+    """truncation of the ACTIVE file inside / at the chunk boundaries of a multi-block record, then the database is USED:
+    Open (recovery), one more Put, Close, Open, dump.  Whatever recovery leaves of the damaged record must not be glued to the
+    records appended later: after the restart every served value was written for its key, the new key is there, and nothing
+    that the first Open showed has changed."""
+    nblk = rng.choice([2, 3])
+    big = "p%d:%d" % (rng.randrange(1, 200), nblk * BLOCK + rng.randrange(-20, 3000))
+    cfg = {"fs": 8 << 20, "sync": 0, "bps": 0, "idx": rng.choice([1, 2, 3]), "io": 0, "shards": 4}
+    cfgs = engine.open_line("w", cfg).split(" ", 2)[2]
+    pre = rng.choice([0, 100, BLOCK - 40, BLOCK - 9])      # the big record starts right away / mid-block / next to a block end
+    setup = [engine.open_line("orig", cfg), "put 6b x6f6c64"] + (["put 70 p9:%d" % pre] if pre else []) + ["put 6b " + big, "close"]
+    hist = {b"k": {core.fmt_val(b"old"), core.fmt_val(core.val_bytes(big))}, b"p": {core.fmt_val(core.val_bytes("p9:%d" % pre))},
+            b"zz": {core.fmt_val(b"\x5a")}}
+    base = ctx.scratch.fresh()
+    try:
+        o0 = run_impl(setup + ["files orig"], base)
+    finally:
+        ctx.scratch.drop(base)
+    sz = int(o0[-1].rsplit(":", 1)[1]) if o0[-1].startswith("files ") and ":" in o0[-1] else 0
+    if sz <= BLOCK:
+        return
+    cuts = set()
+    for b in range(BLOCK, sz, BLOCK):
+        cuts |= {b - 1, b, b + 1, b + 6, b + 7, b + 8, b + 100}
+    cuts |= {sz - 1, sz - 8, rng.randrange(1, sz), rng.randrange(1, sz)}
+    cuts = sorted(c for c in cuts if 0 < c < sz)
+    ops = list(setup)
+    spans = []
+    for n in cuts:
+        seg = ["cpdir orig w", "trunc w 000000000.data %d" % n, "open w " + cfgs, "dump", "put 7a7a x5a", "close", "open w " + cfgs, "dump", "get 7a7a",
+               "fold", "close", "rmdir w"]
+        spans.append((len(ops), len(ops) + len(seg), n))
+        ops += seg
+    b2 = ctx.scratch.fresh()
+    try:
+        o = run_impl(ops, b2, timeout=300)
+    finally:
+        ctx.scratch.drop(b2)
+    mo = run_model(core.model_ops(ops)) if ctx.model_ok else None
+    for a, z, n in spans:
+        res.evaluations += 1
+        res.count("truncate_then_write")
+        seg_ops, seg_out = ops[a:z], o[a:z]
+        res.distinct.add("ttw:%d:%d:%s" % (sz, n, seg_out[3] if len(seg_out) > 3 else ""))
+        bad = None
+        for op, out in zip(seg_ops, seg_out):
+            if out.startswith(("panic:", "died", "dead")):
+                bad = "%s -> %s" % (op, out)
+                break
+            if op == "dump":
+                bad = served_ok(out, hist)
+                if bad:
+                    break
+        if not bad and seg_out[2] == "ok":
+            d1, d2 = seg_out[3], seg_out[7]
+            if seg_out[4] != "ok" or seg_out[5] != "ok" or seg_out[6] != "ok":
+                bad = "the recovered database does not keep working: put=%s close=%s reopen=%s" % (seg_out[4], seg_out[5], seg_out[6])
+            else:
+                items1 = set(x for x in d1.split(" ", 2)[2].split(",") if x) if d1.count(" ") >= 2 else set()
+                items2 = set(x for x in d2.split(" ", 2)[2].split(",") if x) if d2.count(" ") >= 2 else set()
+                if items2 != items1 | {"7a7a=" + core.fmt_val(b"\x5a")}:
+                    bad = "after one more Put and a restart the mapping is %s; the first Open showed %s" % (d2[:200], d1[:200])
+        if bad:
+            res.violation("active file truncated to %d of %d bytes (multi-block record at the end), Open, Put, restart: %s" % (n, sz, bad),
+                          {"ops": setup + seg_ops})
+            break
+        if mo is not None:
+            for op, x, y in zip(seg_ops, seg_out, mo[a:z]):
+                if y != "?" and x != y:
+                    res.violation("correspondence broke after truncating the active file to %d bytes at `%s`: code=%s model=%s" % (n, op, x[:200], y[:200]),
+                                  {"ops": setup + seg_ops, "code": x, "model": y, "correspondence": "corruption outcome"}, no_input=True)
+                    break
+            else:
+                res.count("model_agreed_truncate_then_write")
